@@ -212,6 +212,12 @@ def obligations(tier):
         obs.append(Ob("C04.a[%s]" % name, "props.c04:h_promotion", p,
                       bounds=dict(T=p["T"], E=p["E"], W=2, max_t=p.get("max_t", 4), levels="grace 1, rf 2"), goals=goals, split=sp,
                       budget_s=1800, may_be_incomplete=not quick))
+    for mode in (("min",) if quick else ("min", "max")):
+        obs.append(Ob("C04.c[rung-system-unit,%s,levels=1|2,max_t=4]" % mode, "props.c04:h_rung_system_unit", dict(mode=mode),
+                      bounds=dict(first_rung_entries="4 + 1 late", promotions="<=4", levels=[1, 2], max_t=4, metrics="symbolic"),
+                      goals=("promotion", "two-rungs-populated", "end"), budget_s=1500,
+                      split=tuple(("s%d" % k, (0, 1)) for k in range(6)),
+                      note="unit level: PromotionRungSystem driven directly through on_task_add / on_task_report / on_task_schedule"))
     if not quick:
         obs.append(Ob("C04.b[promotion,min,T=4]", "props.c04:h_promotion", dict(typ="promotion", mode="min", T=4, E=11, W=2),
                       bounds=dict(T=4, E=11, W=2), goals=("promotion", "end"), split=sp + (("c4", (0, 1, 2)),), budget_s=3000, may_be_incomplete=True))
@@ -224,3 +230,108 @@ def run(tier, seed, only=None):
         obs = [o for o in obs if only in o.name]
     return run_property("C04", obs, tier, seed, assumptions=ASSUME,
                         explanation="promotion eligibility reference vs the real promotion-type HyperbandScheduler for every metric valuation and interleaving within bounds")
+
+
+# ---------------------------------------------------------------------------------------------
+# unit level: the promotion rung system driven directly (no scheduler / searcher), so that the state
+# "two rungs hold an eligible trial at the same time" is reached with few symbolic values
+# ---------------------------------------------------------------------------------------------
+def _ref_eligible(sym, rung, levels, max_t, mode):
+    """reference: scan rungs from the top; returns (must, may, level, ambiguous)"""
+    def better(a, b):
+        return a < b if mode == "min" else a > b
+    for j in range(len(levels) - 1, -1, -1):
+        l = levels[j]
+        ent = rung[l]
+        if len(ent) < 2:
+            continue
+        nxt = levels[j + 1] if j + 1 < len(levels) else max_t
+        q = l / nxt
+        unp = [(t, e[0]) for t, e in ent.items() if not e[1]]
+        if not unp:
+            continue
+        bestv = unp[0][1]
+        for t, v in unp:
+            if better(v, bestv):
+                bestv = v
+        bests = [t for t, v in unp if v == bestv]
+        cut = ref_quantile([e[0] for e in ent.values()], q if mode == "min" else 1 - q)
+        clearly_ok = better(bestv, cut - TOL) if mode == "min" else better(bestv, cut + TOL)
+        clearly_bad = better(cut + TOL, bestv) if mode == "min" else better(cut - TOL, bestv)
+        if clearly_bad:
+            continue
+        if clearly_ok:
+            return set(bests), set(bests), l, False
+        sym.fragile()
+        return None, set(bests), l, True
+    return None, set(), None, False
+
+
+def h_rung_system_unit(sym, mode="min", n_first=4, n_promote=3, rf=2, max_t=4):
+    from syne_tune.optimizer.schedulers.hyperband_promotion import PromotionRungSystem
+    levels = ref_rung_levels(1, max_t, rf=rf)               # [1, 3]
+    lp = levels[1:] + [max_t]
+    rs = PromotionRungSystem(rung_levels=list(levels), promote_quantiles=[x / y for x, y in zip(levels, lp)],
+                             metric="m", mode=mode, resource_attr="r", max_t=max_t)
+    rung = {l: {} for l in levels}
+    nid = [0]
+
+    pre = {}
+    for t in range(n_first):
+        pre[(t, levels[0])] = sym.real("m_%d_%d" % (t, levels[0]), -100, 100)
+    k = 0
+    for a in range(n_first):
+        for b in range(a + 1, n_first):
+            sym.split_on("s%d" % k, pre[(a, levels[0])] <= pre[(b, levels[0])])      # cuts the tree into independent sub-trees
+            k += 1
+
+    def report(tid, level):
+        v = pre.get((tid, level))
+        if v is None:
+            v = sym.real("m_%d_%d" % (tid, level), -100, 100)
+        out = rs.on_task_report(str(tid), {"m": v, "r": level}, skip_rungs=0)
+        sym.check(out["milestone_reached"] and not out["task_continues"], "C04.no-pause-at-milestone", "unit: trial %d level %d: %s" % (tid, level, out))
+        rung[level][tid] = [v, False]
+        rs.on_task_remove(str(tid))
+
+    def new_trial():
+        tid = nid[0]
+        nid[0] += 1
+        rs.on_task_add(str(tid), skip_rungs=0, new_config=True)
+        report(tid, levels[0])
+        return tid
+
+    def schedule(step):
+        must, may, lvl, ambiguous = _ref_eligible(sym, rung, levels, max_t, mode)
+        ret = rs.on_task_schedule(str(nid[0]))
+        t = ret.get("trial_id")
+        if t is None:
+            sym.check(must is None, "C04.eligible-trial-not-promoted", "unit step %s: trial(s) %s at rung %s eligible, nothing promoted" % (step, must, lvl))
+            return None
+        t = int(t)
+        sym.goal("promotion")
+        frm, to = ret["resume_from"], ret["milestone"]
+        if not ambiguous:
+            sym.check(t in may, "C04.promoted-non-eligible", "unit step %s: trial %d promoted from rung %s, eligible %s at rung %s" % (step, t, frm, sorted(may), lvl))
+            sym.check(frm == lvl, "C04.promoted-from-lower-rung", "unit step %s: promoted from rung %s although rung %s holds an eligible trial" % (step, frm, lvl))
+        sym.check(frm in rung and t in rung[frm] and not rung[frm][t][1], "C04.promoted-twice", "")
+        nxt = levels[levels.index(frm) + 1] if levels.index(frm) + 1 < len(levels) else max_t
+        sym.check(to == nxt, "C04.next-milestone", "unit: promoted to %s, next rung level is %s" % (to, nxt))
+        rung[frm][t][1] = True
+        if frm == levels[-1]:
+            sym.goal("promotion-from-top-rung")
+        rs.on_task_add(str(t), skip_rungs=0, new_config=False, milestone=to, resume_from=frm)
+        if to < max_t:
+            report(t, to)
+        else:
+            rs.on_task_remove(str(t))
+        return t
+    for _ in range(n_first):
+        new_trial()
+    for k in range(n_promote):
+        schedule("a%d" % k)
+    new_trial()                     # a late, possibly very good, first-rung entry: both rungs may now hold an eligible trial
+    if all(len(rung[l]) >= 2 for l in levels):
+        sym.goal("two-rungs-populated")
+    schedule("b0")
+    sym.goal("end")
